@@ -178,6 +178,10 @@ func checkC04(w *World, r *Report) {
 	r.Rule("R04.6", "Connect never rewrites the configured scheme: a reconnect of a +tls upstream is a TLS connect again", 5)
 	ruleSchemeImmutable(w, r, "R04.6")
 	r.Rule("R04.7", "the user's require-security option reaches every Upstream.Connect unchanged", 2)
+	r.Rule("R04.11", "the client takes every StartTLS offer made on a carrier that is not secure (no local reason turns it down and goes on in clear text)", 1)
+	c04ClientTakesTheOffer(w, r)
+	r.Rule("R04.10", "the secure argument of the server handshake is the listener's own TLS flag, never peer-supplied data", 5)
+	ruleSecureFlagIsTheListenersOwn(w, r, "R04.10")
 	r.Rule("R04.8", "a server whose TLS configuration demands client certificates completes no clear-text session (the requirement can only be enforced inside a TLS handshake)", 1)
 	r.Rule("R04.9", "that demand survives a TLS configuration that cannot be loaded: the requirement flag is set on every path that asked the manager, failure included", 1)
 	c05NoPlainAdmission(w, r, "R04.8", "R04.9")
